@@ -29,7 +29,7 @@ RULE = (
 )
 ASSUMPTIONS = ["one tamper at a time (plus a drawn share of double tampers); chain file content edits are outside the statement"]
 BUDGET = {"quick": (100, 4), "thorough": (7200, 16)}
-REQUIRED = ["older_generation", "nested_victim", "bitflip", "removed", "swapped_generation", "chain_removed", "flatten", "info_sf_noroot"]
+REQUIRED = ["older_generation", "nested_victim", "bitflip", "removed", "swapped_generation", "whitespace_only_edit", "chain_removed", "flatten", "info_sf_noroot"]
 
 P1 = {
     "kinds": ["create"] * 6 + ["create_sf"] * 2 + ["put_new"] * 2 + ["overwrite", "mkdir"],
@@ -39,7 +39,7 @@ P1 = {
     "min_top": 1,
     "flags": {"-n": 0.15},
 }
-EDITS = ["flip", "flip", "insert", "delete", "truncate", "append_nl", "replace", "remove", "swap", "swap"]
+EDITS = ["flip", "flip", "insert", "delete", "truncate", "append_nl", "replace", "remove", "swap", "swap", "cr_before_lf", "crlf_all", "strip_trailing_nl", "tab_for_spaces"]
 COMMANDS = ["create", "create_sf", "verify", "verify_sf", "verify_dh", "diff", "info", "info_sf_root", "info_sf_noroot", "flatten"]
 
 
@@ -128,6 +128,19 @@ def tamper_bytes(data, t):
         return data[:p]
     if e == "append_nl":
         return data + b"\n"
+    if e == "cr_before_lf":
+        nl = [i for i, x in enumerate(data) if x == 0x0A]
+        if not nl:
+            return data + b"\r"
+        i = nl[t["pos"] * len(nl) // 1001]
+        return data[:i] + b"\r" + data[i:]
+    if e == "crlf_all":
+        return data.replace(b"\n", b"\r\n")
+    if e == "strip_trailing_nl":
+        return data.rstrip(b"\n") if data.endswith(b"\n") else data + b" "
+    if e == "tab_for_spaces":
+        i = data.find(b"\n  ", p) if data.find(b"\n  ", p) >= 0 else data.find(b"\n  ")
+        return data[: i + 1] + b"\t" + data[i + 3 :] if i >= 0 else data + b"\t"
     if e == "replace":
         return bytes((x ^ 0x20) if 0x40 < x < 0x7F else (x ^ 0x01) for x in data)
     raise ValueError(e)
@@ -252,6 +265,8 @@ def run_case(scn, ctx):
                     expect = {31}
                     if t["edit"] == "flip":
                         ctx.event("bitflip")
+                    if t["edit"] in ("cr_before_lf", "crlf_all", "strip_trailing_nl", "tab_for_spaces"):
+                        ctx.event("whitespace_only_edit")
                 second = None
                 if scn["double"] and len(manifests) > 1:
                     h2, n2, p2, _l2 = manifests[(vi + 1) % len(manifests)]
